@@ -35,6 +35,11 @@ var zzSLs = []zzSL{
 	{"a", "L2", nil},
 	{"a", "L3", nil},
 	{"a", "L4", nil},
+	{"a", "LX", []string{"a.L5", "t.T6"}}, // preserved exception: what its fields need is kept too
+	{"a", "L5", nil},
+	{"a", "LU", []string{"a.L6"}}, // preserved union
+	{"a", "L6", nil},
+	{"t", "T6", nil},
 }
 
 // type spellings usable in a.thrift with the struct-likes they reach directly
@@ -57,7 +62,7 @@ var zzSpells = []zzSpell{
 }
 
 const zzBase = "struct Deep {}\nstruct BaseReq { 1: Deep d }\nstruct BaseUnused { 1: i32 x }\nservice Base { void ping(1: BaseReq r) }\n"
-const zzT = "enum TEn { A }\ntypedef T2 TD\ntypedef list<T3> TL\nconst i32 TC = 1\nstruct T1 { 1: T2 t }\nstruct T2 {}\nstruct T3 {}\nunion TU { 1: T1 a }\nexception TE { 1: T3 x }\nstruct T4 { 1: map<i32, T5> m }\nstruct T5 {}\nstruct Unused { 1: i32 y }\n"
+const zzT = "enum TEn { A }\ntypedef T2 TD\ntypedef list<T3> TL\nconst i32 TC = 1\nstruct T1 { 1: T2 t }\nstruct T2 {}\nstruct T3 {}\nunion TU { 1: T1 a }\nexception TE { 1: T3 x }\nstruct T4 { 1: map<i32, T5> m }\nstruct T5 {}\nstruct T6 {}\nstruct Unused { 1: i32 y }\n"
 
 func zzMain(ft, ret, arg int, thr bool, preserveL2 bool, extends bool) string {
 	var sb strings.Builder
@@ -67,6 +72,14 @@ func zzMain(ft, ret, arg int, thr bool, preserveL2 bool, extends bool) string {
 		sb.WriteString("// @preserve\n")
 	}
 	sb.WriteString("struct L2 { 1: i32 z }\nstruct L3 {}\nstruct L4 {}\n")
+	if preserveL2 {
+		sb.WriteString("// @preserve\n")
+	}
+	sb.WriteString("exception LX { 1: L5 d, 2: t.T6 x }\nstruct L5 {}\n")
+	if preserveL2 {
+		sb.WriteString("# @preserve\n")
+	}
+	sb.WriteString("union LU { 1: L6 u }\nstruct L6 {}\n")
 	sb.WriteString("service S ")
 	if extends {
 		sb.WriteString("extends base.Base ")
@@ -176,7 +189,7 @@ func H_C16_trim(filter, ft, arg int) {
 	// all typedefs are kept, hence their targets (t.thrift is kept whenever it is still included)
 	seed = append(seed, "a.L4")
 	if pres && !force {
-		seed = append(seed, "a.L2")
+		seed = append(seed, "a.L2", "a.LX", "a.LU")
 	}
 	want := zzClosure(seed, zzSpells[ft].deps)
 	if want["t.T1"] || want["t.T2"] || want["t.T3"] || want["t.TU"] || want["t.TE"] || want["t.T4"] || want["t.T5"] || true {
